@@ -1,6 +1,8 @@
 import RichModel.Lemmas.ProgressInv
 import RichModel.Lemmas.ProgressConc
 import RichModel.Lemmas.ProgressTrack
+import RichModel.Lemmas.ProgressElapsed
+import RichModel.Lemmas.ProgressRat
 /-!
 # C12 — progress accounting is exact for any history and any interleaving
 
@@ -31,15 +33,15 @@ theorem completed_exact (cfg : Cfg) (clock : Clock) (ops : List Op) (st : State)
 
 /-- …and a task created by `add_task(completed=c)` starts from `c`. -/
 theorem completed_exact_fresh (cfg : Cfg) (clock : Clock) (ops : List Op) (st : State) (hwf : WF st)
-    (s : Bool) (tot c : Int) (v : Bool) (t' : Task)
-    (h' : lookup (run cfg clock (.addTask s tot c v :: ops) st).tasks st.nextId = some t') :
-    t'.completed = lastSet st.nextId c ops + advSince st.nextId 0 ops := by
-  obtain ⟨t, hl, hc, _⟩ := step_addTask_lookup cfg clock st hwf s tot c v
+    (a : AddArgs) (t' : Task)
+    (h' : lookup (run cfg clock (.addTask a :: ops) st).tasks st.nextId = some t') :
+    t'.completed = lastSet st.nextId a.completed ops + advSince st.nextId 0 ops := by
+  obtain ⟨t, hl, hc, _⟩ := step_addTask_lookup cfg clock st hwf a
   have := completed_exact cfg clock ops _ (step_WF cfg clock _ st hwf).1 st.nextId t t' hl h'
   rw [hc] at this; exact this
 
-example : lastSet 0 5 [.advance 0 2, .update 0 ⟨none, some 7, some 9, none, false⟩, .advance 1 4, .advance 0 3]
-    + advSince 0 0 [.advance 0 2, .update 0 ⟨none, some 7, some 9, none, false⟩, .advance 1 4, .advance 0 3] = 10 := by
+example : lastSet 0 5 [.advance 0 2, .update 0 ⟨none, some 7, some 9, none, false, none, []⟩, .advance 1 4, .advance 0 3]
+    + advSince 0 0 [.advance 0 2, .update 0 ⟨none, some 7, some 9, none, false, none, []⟩, .advance 1 4, .advance 0 3] = 10 := by
   decide
 
 /-! ## percentage = completed / total clamped to 0..100, 0 when the total is 0 -/
@@ -85,8 +87,39 @@ theorem percentage_spec (t : Task) :
           refine ⟨?_, ?_, ?_, ?_, ?_, ?_, ?_, ?_, ?_, ?_⟩ <;> intros <;>
             (try contradiction) <;> (try dsimp only) <;> (try simp only [Prod.mk.injEq]) <;> (try omega)
 
-example : (Task.percentage ⟨0, 8, 3, none, true, none, none, []⟩) = (300, 8) := by decide
-example : (Task.percentage ⟨0, -4, 3, none, true, none, none, []⟩) = (0, 1) := by decide
+example : (Task.percentage ⟨0, 0, 8, 3, none, true, [], none, none, []⟩) = (300, 8) := by decide
+example : (Task.percentage ⟨0, 0, -4, 3, none, true, [], none, none, []⟩) = (0, 1) := by decide
+
+/-- The same over ℚ: `percentage = min 100 (max 0 (completed / total · 100))`, `0` for a zero total. -/
+theorem percentage_spec_rat (t : Task) :
+    ((t.percentage.1 : ℚ) / (t.percentage.2 : ℚ)) =
+      if t.total = 0 then 0 else min 100 (max 0 ((t.completed : ℚ) / (t.total : ℚ) * 100)) :=
+  percentage_eq_clamp t
+
+/-- `speed` over ℚ (amount units per tick): sum of all samples but the first over the time between
+the first and the last sample; `None` if unstarted, without samples, or over a zero span. -/
+theorem speed_spec_rat (t : Task) :
+    t.speed.map (fun p => (p.1 : ℚ) / (p.2 : ℚ)) =
+      match t.startTime, t.samples with
+      | none, _ => none
+      | some _, [] => none
+      | some _, s0 :: rest =>
+        if (rest.getLast?.getD s0).ts - s0.ts = 0 then none
+        else some ((sumAmt rest : ℚ) / (((rest.getLast?.getD s0).ts - s0.ts : Int) : ℚ)) :=
+  speedQ_spec t
+
+/-- `time_remaining` over ℚ with the exact ceiling: `0` if finished, `None` without a (non-zero)
+speed, else `⌈remaining / (speed per second)⌉`. -/
+theorem time_remaining_spec_rat (cfg : Cfg) (htps : 0 < cfg.tps) (t : Task) :
+    t.timeRemaining cfg =
+      if t.finishedTime.isSome then some 0
+      else match t.speed.map (fun p => (p.1 : ℚ) / (p.2 : ℚ)) with
+        | none => none
+        | some v => if v = 0 then none else some ⌈(t.remaining : ℚ) / (v * (cfg.tps : ℚ))⌉ :=
+  timeRemaining_eq_ceil cfg htps t
+
+example : (Task.timeRemaining ⟨30, 1000, 4, false, 0⟩
+    ⟨0, 0, 10, 3, none, true, [], some 0, none, [⟨0, 1⟩, ⟨8, 2⟩]⟩) = some 7 := by decide
 
 /-! ## a started task is finished after an advance/update that leaves completed ≥ total -/
 
@@ -109,6 +142,9 @@ theorem finished_after_reaching_total (cfg : Cfg) (clock : Clock) (st : State) (
       | stopTask => simp [Op.progresses] at hop
       | reset => simp [Op.progresses] at hop
       | removeTask => simp [Op.progresses] at hop
+      | refresh => simp [Op.progresses] at hop
+      | start => simp [Op.progresses] at hop
+      | stop => simp [Op.progresses] at hop
     · unfold taskAfter Task.finished
       cases op with
       | advance i a =>
@@ -124,6 +160,9 @@ theorem finished_after_reaching_total (cfg : Cfg) (clock : Clock) (st : State) (
       | stopTask => simp [Op.progresses] at hop
       | reset => simp [Op.progresses] at hop
       | removeTask => simp [Op.progresses] at hop
+      | refresh => simp [Op.progresses] at hop
+      | start => simp [Op.progresses] at hop
+      | stop => simp [Op.progresses] at hop
   · exact absurd htg hne
 
 /-! ## the recorded finish time stays fixed until the total changes or the task is reset -/
@@ -134,8 +173,8 @@ theorem finish_time_stable (cfg : Cfg) (clock : Clock) (ops : List Op) (st : Sta
     (h' : lookup (run cfg clock ops st).tasks id = some t') : t'.finishedTime = some v :=
   finish_time_stable_aux cfg clock ops st hwf id t v h hf hno t' h'
 
-example : clearsFinish 0 (.update 0 ⟨none, some 3, some 1, some false, true⟩) = false ∧
-    clearsFinish 0 (.reset 1 true none 0 none) = false ∧ clearsFinish 0 (.update 0 ⟨some 5, none, none, none, false⟩) = true := by
+example : clearsFinish 0 (.update 0 ⟨none, some 3, some 1, some false, true, some 4, [(1, 2)]⟩) = false ∧
+    clearsFinish 0 (.reset 1 ⟨true, none, 0, none, none, []⟩) = false ∧ clearsFinish 0 (.update 0 ⟨some 5, none, none, none, false, none, []⟩) = true := by
   decide
 
 /-! ## speed and time remaining on a monotone clock (sequential histories) -/
@@ -159,8 +198,8 @@ theorem remaining_nonneg_when_running (cfg : Cfg) (clock : Clock) (hm : Mono clo
 
 /-- the hypotheses are met by a real history, with a speed and a remaining time to speak of -/
 example :
-    let cfg : Cfg := ⟨30, 1000, 1, true⟩
-    let ops : List Op := [.addTask true 10 0 true, .advance 0 2, .advance 0 3]
+    let cfg : Cfg := ⟨30, 1000, 1, true, 0⟩
+    let ops : List Op := [.addTask ⟨true, 10, 0, true, 0, []⟩, .advance 0 2, .advance 0 3]
     NonnegAdvances ops ∧ StartedWhenAdvanced cfg (fun k => (k : Int)) ops State.empty ∧
     (run cfg (fun k => (k : Int)) ops State.empty).tasks.map (fun t => (t.speed, t.timeRemaining cfg)) =
       [(some (3, 1), some 2)] := by
@@ -171,8 +210,72 @@ example :
 
 /-- why the hypothesis "running whenever it advances" is there: a task advanced before it was started -/
 theorem remaining_negative_if_advanced_unstarted :
-    (run ⟨30, 1000, 1, true⟩ (fun k => 10 * (k : Int)) [.addTask false 10 0 true, .advance 0 5, .advance 0 20, .startTask 0]
-      State.empty).tasks.map (fun t => t.timeRemaining ⟨30, 1000, 1, true⟩) = [some (-7)] := by decide
+    (run ⟨30, 1000, 1, true, 0⟩ (fun k => 10 * (k : Int)) [.addTask ⟨false, 10, 0, true, 0, []⟩, .advance 0 5, .advance 0 20, .startTask 0]
+      State.empty).tasks.map (fun t => t.timeRemaining ⟨30, 1000, 1, true, 0⟩) = [some (-7)] := by decide
+
+/-! ## elapsed time and the value of the recorded finish time (outside the statement of C12) -/
+
+/-- On a monotone clock, in every history that never resets a *stopped* task, every elapsed time
+(read at any later moment) and every recorded finish time is non-negative. -/
+theorem elapsed_nonneg (cfg : Cfg) (clock : Clock) (hm : Mono clock) (ops : List Op)
+    (hno : NoResetWhileStopped cfg clock ops State.empty) :
+    ∀ t ∈ (run cfg clock ops State.empty).tasks,
+      (∀ f, t.finishedTime = some f → 0 ≤ f) ∧
+      (∀ k e, (run cfg clock ops State.empty).clk ≤ k → (t.elapsedC clock k).1 = some e → 0 ≤ e) := by
+  intro t ht
+  have h := run_invE cfg clock hm ops State.empty hno (by intro x hx; cases hx) t ht
+  exact ⟨h.2.2.2.2, fun k e hk he => elapsedC_nonneg h hk e he⟩
+
+/-- The excluded case on the code as it is: stop at 3, reset at 5 (`stop_time` stays 3), two advances
+reach the total: the task is started *and* stopped, `elapsed = 3 - 5 = -2`, and `-2` is recorded as the
+finish time — while every clause of C12 holds of it (finished, finish time fixed by the later update,
+speed `7/3 ≥ 0`, remaining time `0`). -/
+theorem reset_after_stop_negative_elapsed :
+    (run ⟨30, 1000, 1, false, 0⟩ (fun k => (k : Int))
+      [.addTask ⟨true, 10, 0, true, 0, []⟩, .advance 0 0, .advance 0 0, .stopTask 0, .advance 0 0,
+       .reset 0 ⟨true, none, 0, none, none, []⟩, .advance 0 4, .advance 0 0, .advance 0 6,
+       .update 0 ⟨none, none, some 1, none, false, none, []⟩]
+      State.empty).tasks.map
+      (fun t => ([t.startTime, t.stopTime, t.finishedTime, t.timeRemaining ⟨30, 1000, 1, false, 0⟩], t.finished, t.speed)) =
+    [([some 5, some 3, some (-2), some 0], true, some (7, 3))] := by decide
+
+example : NoResetWhileStopped ⟨30, 1000, 1, false, 0⟩ (fun k => (k : Int))
+    [.addTask ⟨true, 10, 0, true, 0, []⟩, .reset 0 ⟨true, none, 0, none, none, []⟩, .stopTask 0] State.empty :=
+  noResetWhileStopped_of_check _ _ _ _ (by decide)
+
+/-! ## task ids -/
+
+/-- Ids in the task table are strictly increasing in insertion order (so pairwise distinct), after
+any history. -/
+theorem task_ids_distinct (cfg : Cfg) (clock : Clock) (ops : List Op) :
+    List.Pairwise (fun a b : Task => a.id < b.id) (run cfg clock ops State.empty).tasks :=
+  run_idsSorted cfg clock ops State.empty WF_empty IdsSorted_empty
+
+/-- **Ids are never reused**: `add_task` hands out `_task_index`, which is above every id ever handed
+out; an id that is free and below `_task_index` (a removed task's) stays free for ever, whatever
+operations follow — in particular a later `add_task` never returns it. -/
+theorem task_ids_never_reused (cfg : Cfg) (clock : Clock) (ops : List Op) (st : State) (hwf : WF st)
+    (id : Nat) (hlt : id < st.nextId) (h : lookup st.tasks id = none) :
+    lookup (run cfg clock ops st).tasks id = none ∧ id < (run cfg clock ops st).nextId := by
+  refine ⟨run_lookup_none cfg clock ops st hwf id hlt h, ?_⟩
+  induction ops generalizing st with
+  | nil => exact hlt
+  | cons op ops ih =>
+    have hs := step_WF cfg clock op st hwf
+    exact ih _ hs.1 (Nat.lt_of_lt_of_le hlt hs.2) (step_lookup_none cfg clock op st hwf id hlt h)
+
+/-- `add_task` creates its task under an id no existing task has, and `remove_task` frees exactly it. -/
+theorem add_task_id_fresh (cfg : Cfg) (clock : Clock) (st : State) (hwf : WF st) (a : AddArgs) :
+    (∀ t ∈ st.tasks, t.id < st.nextId) ∧
+    (∃ t, lookup (step cfg clock (.addTask a) st).st.tasks st.nextId = some t) ∧
+    (step cfg clock (.addTask a) st).st.nextId = st.nextId + 1 := by
+  obtain ⟨t, hl, _⟩ := step_addTask_lookup cfg clock st hwf a
+  refine ⟨hwf, ⟨t, hl⟩, ?_⟩
+  rw [step_eq_body_none]; rfl
+
+example : (run ⟨30, 1000, 1, false, 0⟩ (fun k => (k : Int))
+    [.addTask ⟨true, 1, 0, true, 0, []⟩, .addTask ⟨true, 1, 0, true, 0, []⟩, .removeTask 1, .removeTask 0,
+     .addTask ⟨true, 1, 0, true, 7, [(1, 2)]⟩] State.empty).tasks.map (fun t => t.id) = [2] := by decide
 
 /-! ## any number of threads, any interleaving -/
 
@@ -205,6 +308,19 @@ theorem completed_exact_all_schedules (cfg : Cfg) (clock : Clock) (sched : List 
     rw [← hc]
     exact completed_exact cfg clock _ c.st hwf id t t'' h hs
 
+/-- **The live display never touches the accounting.** For every schedule of any thread programs —
+among them any number of `_RefreshThread`s (`refreshThreadProg k`: `k` wake-ups, each a `refresh()`),
+`Progress.start()` and `Progress.stop()` — the task table and `_task_index` at the end are those of the
+sequential history in lock-acquisition order *with every refresh / start / stop dropped*. -/
+theorem refresh_threads_harmless (cfg cfg' : Cfg) (clock clock' : Clock) (sched : List Nat) (c : Conf) :
+    (absState (runSched cfg clock sched c).1.st).core =
+      (absState (run cfg' clock'
+        (((commits (runSched cfg clock sched c).2).map Prod.fst).filter (fun o => !o.isDisplay)) c.st)).core := by
+  rw [abs_runSched, abs_run]
+  exact aRun_drop_display _ _ _ rfl
+
+example : refreshThreadProg 3 = [.refresh, .refresh, .refresh] := by decide
+
 /-- **Repaired variant** (clock read under the lock): every schedule leaves exactly — timestamps,
 samples and clock included — the state of the sequential history in lock-acquisition order. -/
 theorem fixed_schedules_are_sequential (cfg : Cfg) (clock : Clock) (hfix : cfg.clockOutside = false)
@@ -228,17 +344,17 @@ thread 0 reads the clock (2), thread 1 reads the clock (3), thread 1 commits, th
 The deque is `[(3,1),(2,1)]` and the speed is `1 / (2 - 3) = -1`; the remaining time is `-98` s. -/
 def wClock : Clock := fun k => (k : Int) + 1
 def wProgs : List Thread := [⟨[.advance 0 1], none⟩, ⟨[.advance 0 1], none⟩]
-def wConf (cfg : Cfg) : Conf := ⟨run cfg wClock [.addTask true 100 0 true] State.empty, wProgs⟩
+def wConf (cfg : Cfg) : Conf := ⟨run cfg wClock [.addTask ⟨true, 100, 0, true, 0, []⟩] State.empty, wProgs⟩
 
 theorem old_speed_negative_under_schedule :
-    (runSched ⟨30, 1000, 1, true⟩ wClock [0, 1, 1, 0] (wConf ⟨30, 1000, 1, true⟩)).1.st.tasks.map
-      (fun t => (t.samples, t.speed, t.timeRemaining ⟨30, 1000, 1, true⟩)) =
+    (runSched ⟨30, 1000, 1, true, 0⟩ wClock [0, 1, 1, 0] (wConf ⟨30, 1000, 1, true, 0⟩)).1.st.tasks.map
+      (fun t => (t.samples, t.speed, t.timeRemaining ⟨30, 1000, 1, true, 0⟩)) =
     [([⟨3, 1⟩, ⟨2, 1⟩], some (1, -1), some (-98))] := by decide
 
 /-- the same programs and the same schedule with the clock read under the lock -/
 theorem fixed_speed_under_same_schedule :
-    (runSched ⟨30, 1000, 1, false⟩ wClock [0, 1, 1, 0] (wConf ⟨30, 1000, 1, false⟩)).1.st.tasks.map
-      (fun t => (t.samples, t.speed, t.timeRemaining ⟨30, 1000, 1, false⟩)) =
+    (runSched ⟨30, 1000, 1, false, 0⟩ wClock [0, 1, 1, 0] (wConf ⟨30, 1000, 1, false, 0⟩)).1.st.tasks.map
+      (fun t => (t.samples, t.speed, t.timeRemaining ⟨30, 1000, 1, false, 0⟩)) =
     [([⟨2, 1⟩, ⟨3, 1⟩], some (1, 1), some 98)] := by decide
 
 /-! ## track() -/
@@ -251,8 +367,8 @@ theorem track_counts {α : Type} (cfg : Cfg) (clock : Clock) (st : State) (hwf :
       t.completed = xs.length := by
   refine ⟨rfl, ?_⟩
   simp only [trackSeq, trackOpen, trackId, Option.getD_none, run]
-  obtain ⟨t0, hl, hc, _⟩ := step_addTask_lookup cfg clock st hwf true total 0 true
-  have hwf' := (step_WF cfg clock (.addTask true total 0 true) st hwf).1
+  obtain ⟨t0, hl, hc, _⟩ := step_addTask_lookup cfg clock st hwf ⟨true, total, 0, true, 0, []⟩
+  have hwf' := (step_WF cfg clock (.addTask ⟨true, total, 0, true, 0, []⟩) st hwf).1
   obtain ⟨t', ht'⟩ := run_lookup_some cfg clock (xs.map (fun _ => Op.advance st.nextId 1)) _ hwf' st.nextId t0 hl
     (by intro op hop; simp only [List.mem_map] at hop; obtain ⟨_, _, rfl⟩ := hop; simp)
   refine ⟨t', ht', ?_⟩
@@ -274,8 +390,8 @@ theorem track_thread_counts {α : Type} (cfg : Cfg) (clock : Clock) (st : State)
       t.completed = xs.length := by
   refine ⟨rfl, ?_, ?_⟩
   · simp only [trackOpen, run]
-    obtain ⟨t0, hl, hc, _⟩ := step_addTask_lookup cfg clock st hwf true total 0 true
-    have hwf' := (step_WF cfg clock (.addTask true total 0 true) st hwf).1
+    obtain ⟨t0, hl, hc, _⟩ := step_addTask_lookup cfg clock st hwf ⟨true, total, 0, true, 0, []⟩
+    have hwf' := (step_WF cfg clock (.addTask ⟨true, total, 0, true, 0, []⟩) st hwf).1
     have hadv := trackWakes_advances st.nextId 0 seen
     obtain ⟨t', ht'⟩ := run_lookup_some cfg clock (trackWakes st.nextId 0 seen) _ hwf' st.nextId t0 hl
       (by intro op hop; obtain ⟨a, rfl⟩ := hadv op hop; simp)
@@ -284,11 +400,11 @@ theorem track_thread_counts {α : Type} (cfg : Cfg) (clock : Clock) (st : State)
     rw [this, hc, lastSet_advances st.nextId 0 _ hadv, advSince_trackWakes]
     omega
   · simp only [trackThread, trackOpen, trackId, Option.getD_none]
-    obtain ⟨t0, hl, hc, _⟩ := step_addTask_lookup cfg clock st hwf true total 0 true
-    have hwf' := (step_WF cfg clock (.addTask true total 0 true) st hwf).1
+    obtain ⟨t0, hl, hc, _⟩ := step_addTask_lookup cfg clock st hwf ⟨true, total, 0, true, 0, []⟩
+    have hwf' := (step_WF cfg clock (.addTask ⟨true, total, 0, true, 0, []⟩) st hwf).1
     have hadv := trackWakes_advances st.nextId 0 seen
     obtain ⟨t', ht'⟩ := run_lookup_some cfg clock
-      (trackWakes st.nextId 0 seen ++ [Op.update st.nextId ⟨none, some xs.length, none, none, true⟩]) _ hwf' st.nextId t0 hl
+      (trackWakes st.nextId 0 seen ++ [Op.update st.nextId ⟨none, some xs.length, none, none, true, none, []⟩]) _ hwf' st.nextId t0 hl
       (by
         intro op hop
         simp only [List.mem_append, List.mem_singleton] at hop
@@ -301,6 +417,6 @@ theorem track_thread_counts {α : Type} (cfg : Cfg) (clock : Clock) (st : State)
     omega
 
 example : (trackThread (α := Char) none 3 ['a', 'b', 'c'] [0, 1, 1, 3] State.empty).2 =
-    [.addTask true 3 0 true, .advance 0 1, .advance 0 2, .update 0 ⟨none, some 3, none, none, true⟩] := by decide
+    [.addTask ⟨true, 3, 0, true, 0, []⟩, .advance 0 1, .advance 0 2, .update 0 ⟨none, some 3, none, none, true, none, []⟩] := by decide
 
 end RichModel.C12
